@@ -13,6 +13,8 @@ def run(ctx):
     ctx.exhaustive("MemCache_MC", "MemCache_live", timeout=900)
     if not ctx.quick:
         ctx.exhaustive("MemCache_MC", "MemCache_thorough", timeout=3000)
+    # ... and for any number of callers, entries, buffers and versions: TLAPS proof of the inductive invariant
+    ctx.extra["tlaps_obligations_MemCacheProof"] = vf.tlapm("MemCacheProof", deps=("MemCache",))
     for cfg in ("MemCache_bug_latecopy", "MemCache_bug_nokey", "MemCache_bug_nolock"):
         r = vf.tlc("MemCache_MC", cfg=cfg, timeout=600)
         if r.ok or r.violated != "Inv_C07_HitOwnValue":
